@@ -867,6 +867,12 @@ class ExecBase:
         if sl.step is not None:
             self.oos("slice step", node)
         c = self.as_val(recv, st, node)
+        if c.tag == "any":
+            # dynamically a str or a list: slice both views and select by the run-time tag
+            self.may_raise(st, z3.Not(z3.Or(recog("s")(c.e), recog("l")(c.e))), Exc("TypeError", origin="slice"), node)
+            sv = self.as_val(self.slice(Val("s", acc("s")(c.e)), sl, st, node), st, node)
+            lv = self.as_val(self.slice(Val("l", acc("l")(c.e)), sl, st, node), st, node)
+            return ite_val(recog("s")(c.e), sv, lv)
         if c.tag not in ("s", "l"):
             self.oos(f"slice of {c.tag}", node)
         n = z3.Length(c.e)
